@@ -117,7 +117,7 @@ func methodFor(key string, i int) string {
 
 func genC02(t *rapid.T) C02Case {
 	c := C02Case{SP: h.BaseSP()}
-	c.Kind = rapid.SampledFrom([]string{"response", "assertion", "both", "LogoutRequest", "LogoutResponse"}).Draw(t, "kind")
+	c.Kind = rapid.SampledFrom([]string{"response", "assertion", "both", "dup", "LogoutRequest", "LogoutResponse"}).Draw(t, "kind")
 	c.Signer = h.CertRef{Key: rapid.SampledFrom([]string{"T1", "T1", "T2", "T3", "A"}).Draw(t, "signerKey"), Window: rapid.SampledFrom(h.Windows).Draw(t, "window")}
 	if (c.Signer.Key == "T1" || c.Signer.Key == "T2") && rapid.IntRange(0, 3).Draw(t, "skiCert") == 0 {
 		// renewed certificate on an unchanged key, both with a SubjectKeyIdentifier (as openssl makes them)
@@ -156,7 +156,7 @@ func genC02(t *rapid.T) C02Case {
 }
 
 func finishC02(c *C02Case, pick int, fail func(error)) {
-	if c.Kind == "both" {
+	if c.Kind == "both" || c.Kind == "dup" {
 		// the assertion's own signature is good whenever the clock is inside the window: T2 with the same window, trusted
 		if o := (h.CertRef{Key: "T2", Window: c.bothWindow()}); !inStore(c.SP.Store, o) {
 			c.SP.Store = append(c.SP.Store, o)
@@ -193,6 +193,17 @@ func finishC02(c *C02Case, pick int, fail func(error)) {
 	var root *etree.Element
 	var err error
 	switch c.Kind {
+	case "dup":
+		// unsigned Response with TWO assertions that carry the SAME ID: the first one well signed (T2), the second
+		// one signed as this case says — each is judged on its own signature, whatever its ID
+		g := gridGenuine(c.SP, 2, "assertions")
+		g.Model.Assertions[1].ID = g.Model.Assertions[0].ID
+		a := h.DefaultSign("T2")
+		a.Signer.Window = c.bothWindow()
+		e := a.Signer
+		a.Embed = &e
+		g.AsrtSig = []*h.SignSpec{a, spec}
+		root, err = g.Tree()
 	case "response", "assertion", "both":
 		g := gridGenuine(c.SP, 1, map[string]string{"response": "response", "assertion": "assertions", "both": "both"}[c.Kind])
 		switch c.Kind {
@@ -249,6 +260,20 @@ func flipB64(s string) string {
 
 // tamper edits the signed tree after signing.
 func tamper(root *etree.Element, kind, how string) {
+	if kind == "dup" {
+		// everything happens inside the SECOND assertion
+		as := h.AssertionElements(root)
+		if len(as) < 2 {
+			return
+		}
+		holder := etree.NewElement("holder")
+		idx := as[1].Index()
+		root.RemoveChildAt(idx)
+		holder.AddChild(as[1])
+		tamper(holder, "assertion", how)
+		root.InsertChildAt(idx, as[1])
+		return
+	}
 	switch how {
 	case "content":
 		signed := root
@@ -306,6 +331,14 @@ func checkC02(c C02Case) h.Outcome {
 func judgeC02(c C02Case, newSP func() *saml2.SAMLServiceProvider) h.Outcome {
 	o := h.Outcome{}
 	hon, why := c.honoured()
+	if c.Kind == "dup" && hon {
+		// the companion (first) assertion is signed by T2 with a certificate of the same window: outside that
+		// window the message is refused because of IT, however honourable the case's own signature is
+		x := (h.CertRef{Key: "T2", Window: c.bothWindow()}).X509()
+		if now := c.SP.Now(); now.Before(x.NotBefore) || now.After(x.NotAfter) {
+			hon, why = false, "companion assertion's certificate outside validity at SP clock"
+		}
+	}
 	trivial := c.Signer.Key != "A" && c.KeyInfo == "own" && c.ClockPos == "inside" && c.Tamper == "none" && inStore(c.SP.Store, c.Signer)
 	o.NonTrivial = !trivial
 	o.Classes = []string{"kind:" + c.Kind, "keyinfo:" + c.KeyInfo, "tamper:" + c.Tamper, "clock:" + c.ClockPos, "window:" + c.Signer.Window,
@@ -321,7 +354,7 @@ func judgeC02(c C02Case, newSP func() *saml2.SAMLServiceProvider) h.Outcome {
 	}
 	var rs []res
 	switch c.Kind {
-	case "response", "assertion", "both":
+	case "response", "assertion", "both", "dup":
 		r, err := newSP().ValidateEncodedResponse(c.Encoded)
 		x := res{entry: "ValidateEncodedResponse", err: err}
 		if err == nil {
@@ -368,6 +401,11 @@ func judgeC02(c C02Case, newSP func() *saml2.SAMLServiceProvider) h.Outcome {
 			case "LogoutRequest", "LogoutResponse":
 				if !r.rootFlag {
 					o.Violation = h.V("flag-mismatch/"+c.Kind, "%s: signature honoured but SignatureValidated=false", r.entry)
+					return o
+				}
+			case "dup":
+				if r.rootFlag || len(r.asrtFlags) != 2 || !r.asrtFlags[0] || !r.asrtFlags[1] {
+					o.Violation = h.V("flag-mismatch/dup", "%s: root flag %v, assertion flags %v for an unsigned Response with two individually signed assertions", r.entry, r.rootFlag, r.asrtFlags)
 					return o
 				}
 			case "both":
@@ -497,7 +535,7 @@ func TestC02_Grid(t *testing.T) {
 		}
 	}
 	// attacker key, and tampering, at every kind
-	for _, kind := range []string{"response", "assertion", "both", "LogoutRequest", "LogoutResponse"} {
+	for _, kind := range []string{"response", "assertion", "both", "dup", "LogoutRequest", "LogoutResponse"} {
 		for _, tm := range []string{"content", "digest", "sigvalue", "extra-ref-first", "extra-ref-last", "none"} {
 			for _, ki := range []string{"own", "absent"} {
 				c := C02Case{SP: h.BaseSP(), Kind: kind, Signer: h.CertRef{Key: "T1", Window: "wide"}, KeyInfo: ki, Tamper: tm, ClockPos: "inside", Method: h.RSAMethods[1], C14N: h.C14Ns[0]}
